@@ -47,12 +47,12 @@ inductive Tree where
 abbrev Items := List (Key × Tree)
 
 /-- Which behaviour of the source is mirrored. `pinned`: /repo before the C01/C07 patches;
-`patched`: with fixes/C01-F02, C01-F03, C01-F33, C07-F17 applied. -/
+`patched`: with fixes/C01-F02, C01-F03, C01-F78, C07-F17 applied. -/
 structure Cfg where
   reindexOnMutate : Bool     -- F03: list write primitive / `__delitem__` re-index; negative index normalised
   reindexOnReorder : Bool    -- F02: `sort` / `reverse` re-index
   listCloneSealed : Bool     -- F17: `List._sym_clone` passes `sealed`
-  detachOnRemove : Bool      -- F33: `del l[i]` / `pop` / `remove` / `clear` / `popitem` detach what they remove
+  detachOnRemove : Bool      -- F78: `del l[i]` / `pop` / `remove` / `clear` / `popitem` detach what they remove
   deriving DecidableEq, Repr
 
 def Cfg.pinned : Cfg := ⟨false, false, false, false⟩
